@@ -122,8 +122,188 @@ func historyOrder(a agg, witness string, optimize bool, swFirst bool) []byte {
 		} else if e3 != nil || !bytes.Equal(b1, b3) {
 			fail(a.name, "encode-vs-encodesw", witness, fmt.Sprintf("%s gives %d bytes / err=%v, %s gave %d", nameSecond, len(b3), e3, nameFirst, len(b1)))
 		}
+		// writers with spare room (C02_encode_sw_capacity_*): success must mean exactly Size() bytes, the same ones,
+		// whatever the capacity >= Size()
+		if s1 < 1<<22 {
+			for _, extra := range []uint64{1, 64, s1} {
+				var b4 []byte
+				var e4 error
+				var s4 uint64
+				p = hx.Try(func() {
+					s4 = a.size()
+					sw := bits.NewFixedSliceWriter(int(s4 + extra))
+					e4 = a.encsw(sw)
+					b4 = sw.Bytes()
+				})
+				switch {
+				case p != "":
+					fail(a.name, "panic", witness, fmt.Sprintf("EncodeSW into Size()+%d bytes panics: %s", extra, p))
+				case e4 != nil:
+					fail(a.name, "encodesw-capacity-dependent", witness, fmt.Sprintf("EncodeSW into a writer of Size()+%d = %d bytes fails (%v), into Size() bytes it succeeded", extra, s4+extra, e4))
+				case uint64(len(b4)) != s4:
+					fail(a.name, "encodesw-roomy-vs-size", witness, fmt.Sprintf("EncodeSW into a writer of Size()+%d bytes wrote %d bytes, Size() = %d", extra, len(b4), s4))
+				case !bytes.Equal(b4, b1):
+					fail(a.name, "encodesw-capacity-dependent", witness, fmt.Sprintf("EncodeSW into a writer of Size()+%d bytes wrote other bytes than into Size() bytes", extra))
+				}
+			}
+		}
 	}
 	return b1
+}
+
+// progCheck: a progressive file (or any file written child by child): the file position of every mdat payload computed
+// from Size() / HeaderSize() is its position in the output, and moov (with the chunk offsets in stco / co64) is
+// written as it is (C02_file_progressive)
+func progCheck(f *mp4.File, witness string) {
+	evals++
+	var want []uint64
+	var moovBefore []byte
+	var enc bytes.Buffer
+	var err error
+	p := hx.Try(func() {
+		_ = f.Size() // decides LargeSize of every mdat
+		pos := uint64(0)
+		for _, c := range f.Children {
+			if m, ok := c.(*mp4.MdatBox); ok {
+				want = append(want, pos+m.HeaderSize())
+			}
+			if c.Type() == "moov" {
+				var mb bytes.Buffer
+				if c.Encode(&mb) == nil {
+					moovBefore = mb.Bytes()
+				}
+			}
+			pos += c.Size()
+		}
+		err = f.Encode(&enc)
+	})
+	if p != "" {
+		fail("File(progressive)", "panic", witness, "Size/Encode panics: "+p)
+		return
+	}
+	if err != nil {
+		return
+	}
+	out := enc.Bytes()
+	var got []uint64
+	pos := 0
+	moovSame := moovBefore == nil
+	for pos+8 <= len(out) {
+		sz := uint64(out[pos])<<24 | uint64(out[pos+1])<<16 | uint64(out[pos+2])<<8 | uint64(out[pos+3])
+		hl := 8
+		if sz == 1 && pos+16 <= len(out) {
+			sz = 0
+			for k := 8; k < 16; k++ {
+				sz = sz<<8 | uint64(out[pos+k])
+			}
+			hl = 16
+		}
+		if sz < uint64(hl) || sz > uint64(len(out)-pos) {
+			fail("File(progressive)", "output-does-not-tile", witness, fmt.Sprintf("size field %d at %d", sz, pos))
+			return
+		}
+		ty := string(out[pos+4 : pos+8])
+		if ty == "mdat" {
+			got = append(got, uint64(pos+hl))
+		}
+		if ty == "moov" && moovBefore != nil && bytes.Equal(out[pos:pos+int(sz)], moovBefore) {
+			moovSame = true
+		}
+		pos += int(sz)
+	}
+	if fmt.Sprint(got) != fmt.Sprint(want) {
+		fail("File(progressive)", "mdat-payload-position", witness, fmt.Sprintf("mdat payloads begin at %v in the output, Size()/HeaderSize() of the children say %v", got, want))
+	}
+	if !moovSame {
+		fail("File(progressive)", "moov-rewritten", witness, "the moov box in the output differs from the moov encoded before File.Encode")
+	}
+}
+
+func doProgressive(seed uint64, n int, repo string) {
+	for _, p := range files(repo) {
+		data, err := os.ReadFile(p)
+		if err != nil {
+			continue
+		}
+		for _, sr := range []bool{false, true} {
+			f, err := decodeFile(data, sr, mp4.EncModeBoxTree)
+			if err != nil || f == nil {
+				continue
+			}
+			progCheck(f, fmt.Sprintf("file=%s decoder-sr=%v box by box", strings.TrimPrefix(p, repo+"/"), sr))
+		}
+	}
+	r := hx.NewRng(seed*1000003 + 77)
+	for i := 0; i < n; i++ {
+		f := mp4.NewFile()
+		init := mp4.CreateEmptyInit()
+		init.AddEmptyTrack(uint32(r.Pick(90000, 48000)), []string{"video", "audio"}[r.Intn(2)], "und")
+		order := r.Intn(3)
+		how := []string{"ftyp moov mdat", "ftyp mdat moov", "ftyp free moov mdat mdat"}[order]
+		mk := func() *mp4.MdatBox {
+			m := &mp4.MdatBox{}
+			if r.Bool() {
+				m.Data = r.Bytes(r.Intn(64), nil)
+			} else {
+				for k := r.Range(1, 3); k > 0; k-- {
+					m.AddSampleDataPart(r.Bytes(r.Intn(32), nil))
+				}
+			}
+			if r.Intn(3) == 0 {
+				m.LargeSize = true
+			}
+			return m
+		}
+		f.AddChild(init.Ftyp, 0)
+		switch order {
+		case 0:
+			f.AddChild(init.Moov, 0)
+			f.AddChild(mk(), 0)
+		case 1:
+			f.AddChild(mk(), 0)
+			f.AddChild(init.Moov, 0)
+		default:
+			f.AddChild(mp4.NewFreeBox(r.Bytes(r.Intn(9), nil)), 0)
+			f.AddChild(init.Moov, 0)
+			f.AddChild(mk(), 0)
+			f.AddChild(mk(), 0)
+		}
+		w := fmt.Sprintf("built progressive file #%d (%s)", i, how)
+		progCheck(f, w)
+		history(fileAgg(f, "File(progressive)"), w, false)
+	}
+}
+
+// doSencDecoded: senc boxes as DecodeBox / DecodeBoxSR and ParseReadBox leave them (the generator of the
+// correspondence stream): the per-node oracle on each
+func doSencDecoded(seed uint64, n int) {
+	r := hx.NewRng(seed*1000003 + 99)
+	for i := 0; i < n; i++ {
+		pl, made := genSencPayload(r)
+		box, _, _ := sencBoxBytes(pl, r.Intn(5) == 0)
+		piv := pivChoice(r, made)
+		for v := 0; v < 2; v++ {
+			s, _ := decodeSenc(box, v == 1)
+			if s == nil {
+				continue
+			}
+			site := "senc(decoded)"
+			how := fmt.Sprintf("%s decoded (sr=%v)", hx.Hex(box), v == 1)
+			if piv != "x" {
+				po := sencParse(s, piv)
+				if !strings.HasPrefix(po, "o/") {
+					continue // the second phase failed: the box is to be discarded
+				}
+				site = "senc(parsed)"
+				how += " then ParseReadBox(" + piv + ")"
+			}
+			var fs []bx.Fail
+			bx.SizeAtEveryNode(s, "senc", how, &fs, &evals)
+			for _, f := range fs {
+				fail(site, f.Class, how, f.Desc)
+			}
+		}
+	}
 }
 
 func fileAgg(f *mp4.File, name string) agg {
@@ -492,6 +672,10 @@ func doBuiltBoxes(seed uint64) {
 			boxCheck(h, "CreateHdlr("+mt+")")
 		}
 	}
+	// HandlerType is an exported string: any length (finding C02-K3, repaired by 3502d85)
+	for _, ht := range []string{"", "v", "vi", "vid", "video", "subtitle"} {
+		boxCheck(&mp4.HdlrBox{HandlerType: ht, Name: "n"}, fmt.Sprintf("HdlrBox{HandlerType: %q, Name: \"n\"}", ht))
+	}
 	// fragments whose trun carries first-sample flags next to the other per-sample fields
 	for i := 0; i < 40; i++ {
 		fr, err := mp4.CreateFragment(uint32(i+1), 1)
@@ -548,6 +732,8 @@ func main() {
 	doBuilt(*seed, *n)
 	doBuiltBoxes(*seed)
 	doSetters(*seed, *n, *repo)
+	doProgressive(*seed, *n/4+10, *repo)
+	doSencDecoded(*seed, *n+100)
 	fmt.Fprintf(out, "STAT\tfile_decodes=%d built=%d\n", nf, *n)
 	fmt.Fprintf(out, "EVALS\t%d\n", evals)
 }
